@@ -81,6 +81,9 @@ func decodeTotal(c *core.Case, family string, t reflect.Type, in []byte) (err er
 		c.Violation(class+"|Unmarshal", "input-modified", fmt.Sprintf("Unmarshal modified its input %x", tr(in)), w)
 	}
 	c.Count("calls.Unmarshal", 1)
+	if h := core.Mix(core.HashBytes(in), core.HashString(t.String())); h%3 == 0 && t.Kind() == reflect.Struct {
+		decodePrefilled(c, class, t, in, h, w)
+	}
 	// Parse / Scan and the reference scanner
 	c.Journal(class + "|Scan")
 	type fld struct {
@@ -136,6 +139,117 @@ func decodeTotal(c *core.Case, family string, t reflect.Type, in []byte) (err er
 		}
 	}
 	return err, out
+}
+
+// ---- pre-filled targets -------------------------------------------------------------------------
+
+type sliceGuard struct {
+	path          string
+	region, saved reflect.Value
+}
+
+// clipSlices replaces every non-empty slice reachable from v by one whose capacity is used up and
+// whose backing array continues with four guard elements.
+func clipSlices(f *ptypes.Filler, v reflect.Value, path string, guards *[]sliceGuard, depth int) {
+	if depth > 3 {
+		return
+	}
+	switch v.Kind() {
+	case reflect.Pointer:
+		if !v.IsNil() {
+			clipSlices(f, v.Elem(), path+"*", guards, depth+1)
+		}
+	case reflect.Struct:
+		if isCustom(v.Type()) {
+			return
+		}
+		for i := 0; i < v.NumField(); i++ {
+			if v.Type().Field(i).IsExported() {
+				clipSlices(f, v.Field(i), path+"."+v.Type().Field(i).Name, guards, depth+1)
+			}
+		}
+	case reflect.Slice:
+		n := v.Len()
+		if n == 0 || !v.CanSet() {
+			return
+		}
+		for i := 0; i < n; i++ {
+			clipSlices(f, v.Index(i), fmt.Sprintf("%s[%d]", path, i), guards, depth+1)
+		}
+		big := reflect.MakeSlice(v.Type(), n+4, n+4)
+		reflect.Copy(big, v)
+		for i := n; i < n+4; i++ {
+			f.Fill(big.Index(i), 3)
+		}
+		saved := reflect.MakeSlice(v.Type(), 4, 4)
+		reflect.Copy(saved, big.Slice(n, n+4))
+		*guards = append(*guards, sliceGuard{path, big.Slice(n, n+4), saved})
+		v.Set(big.Slice3(0, n, n))
+	}
+}
+
+// saneSlices: no slice reachable from v is longer than its capacity.
+func saneSlices(v reflect.Value, path string, depth int) string {
+	if depth > 4 {
+		return ""
+	}
+	switch v.Kind() {
+	case reflect.Pointer:
+		if !v.IsNil() {
+			return saneSlices(v.Elem(), path+"*", depth+1)
+		}
+	case reflect.Struct:
+		for i := 0; i < v.NumField(); i++ {
+			if v.Type().Field(i).IsExported() {
+				if d := saneSlices(v.Field(i), path+"."+v.Type().Field(i).Name, depth+1); d != "" {
+					return d
+				}
+			}
+		}
+	case reflect.Slice:
+		hdr := (*[3]uintptr)(v.Addr().UnsafePointer())
+		if hdr[1] > hdr[2] {
+			return fmt.Sprintf("%s: len %d > cap %d", path, hdr[1], hdr[2])
+		}
+		for i := 0; i < v.Len() && i < 8; i++ {
+			if d := saneSlices(v.Index(i), fmt.Sprintf("%s[%d]", path, i), depth+1); d != "" {
+				return d
+			}
+		}
+	}
+	return ""
+}
+
+// decodePrefilled: Unmarshal into a target that already holds a value whose slices are full; the
+// decoder appends to them, and may neither fault nor write behind their capacity.
+func decodePrefilled(c *core.Case, class string, t reflect.Type, in []byte, seed uint64, w map[string]any) {
+	f := &ptypes.Filler{R: core.NewRand(seed), NoNaN: true}
+	if seed%2 == 0 {
+		f.MaxLen = 1 // the smallest capacities: 1 (and whatever growth makes of it)
+	}
+	tgt := f.NewValue(t)
+	var guards []sliceGuard
+	clipSlices(f, tgt, "", &guards, 0)
+	c.Journal(class + "|Unmarshal-prefilled")
+	var err error
+	sig, stk := core.Guard(func() { err = proto.Unmarshal(append([]byte(nil), in...), tgt.Addr().Interface()) })
+	if sig != "" {
+		c.Violation(class+"|Unmarshal-prefilled", sig, fmt.Sprintf("Unmarshal(%x) into a target that already holds a value panicked: %s", tr(in), stk), w)
+		return
+	}
+	_ = err
+	if d := saneSlices(tgt, "", 0); d != "" {
+		c.Violation(class+"|Unmarshal-prefilled", "slice-len-above-cap", fmt.Sprintf("after Unmarshal(%x) into a target whose slices were full: %s", tr(in), d), w)
+		return
+	}
+	for _, g := range guards {
+		if !reflect.DeepEqual(g.region.Interface(), g.saved.Interface()) {
+			c.Violation(class+"|Unmarshal-prefilled", "wrote-behind-capacity", fmt.Sprintf("Unmarshal(%x) changed the elements behind the capacity of %s: %v, were %v", tr(in), g.path, g.region.Interface(), g.saved.Interface()), w)
+			return
+		}
+	}
+	c.Count("calls.Unmarshal-prefilled", 1)
+	c.Count("prefilled.guarded-slices", len(guards))
 }
 
 func pickType(c *core.Case) reflect.Type {
@@ -298,7 +412,7 @@ func runBare(c *core.Case) {
 func init() {
 	core.Register(&core.Monitor{
 		Prop:    "C07",
-		Rule:    "Target types and valid encodings come from the C03 generator. prefixes: every prefix of a valid encoding (cut at every byte, up to 400); mutated: 12 hostile mutations per encoding (truncation, bit flips, lengths/varints replaced by 0, len+-1, 2^31-1, 2^32-1, 2^63, 2^64-1, over-long varints, wire-type swaps, inserted noise, deleted spans, duplicated fields); length-bomb: every declared field with declared lengths from 2^20 to 2^64-1 and 3 available bytes; random: raw bytes and tag-shaped noise. bare-targets: Unmarshal into top-level values that are not messages ([]byte, string, byte arrays, numbers, custom types; also through a pointer) of huge declared lengths, over-long payloads and noise. Every thirteenth type is a declared recursive or mutually recursive message type. Each input goes through Unmarshal (allocation measured with cumulative TotalAlloc on the single-goroutine worker; bound 64 KiB + (8*largest reachable element + 512) bytes per input byte), Scan/Parse and the RawValue accessors (compared with protowire); a panic or process death is a violation; when Unmarshal accepts, Scan must enumerate the same (number, wire type, bytes) list as the reference scanner. unknown-fields: well-formed fields with undeclared numbers (wire types 0,1,2,5, also nested messages) inserted at every/half/fifth of the field boundaries of the message, recursively inside embedded messages and map entries: Unmarshal must accept and decode to the same value. Distinct by (type, input).",
+		Rule:    "Target types and valid encodings come from the C03 generator. Every third input is also decoded into a target that already holds a value whose slices are full (cap == len, often 1) and followed by guard elements: no panic, no slice longer than its capacity, guard elements unchanged. prefixes: every prefix of a valid encoding (cut at every byte, up to 400); mutated: 12 hostile mutations per encoding (truncation, bit flips, lengths/varints replaced by 0, len+-1, 2^31-1, 2^32-1, 2^63, 2^64-1, over-long varints, wire-type swaps, inserted noise, deleted spans, duplicated fields); length-bomb: every declared field with declared lengths from 2^20 to 2^64-1 and 3 available bytes; random: raw bytes and tag-shaped noise. bare-targets: Unmarshal into top-level values that are not messages ([]byte, string, byte arrays, numbers, custom types; also through a pointer) of huge declared lengths, over-long payloads and noise. Every thirteenth type is a declared recursive or mutually recursive message type. Each input goes through Unmarshal (allocation measured with cumulative TotalAlloc on the single-goroutine worker; bound 64 KiB + (8*largest reachable element + 512) bytes per input byte), Scan/Parse and the RawValue accessors (compared with protowire); a panic or process death is a violation; when Unmarshal accepts, Scan must enumerate the same (number, wire type, bytes) list as the reference scanner. unknown-fields: well-formed fields with undeclared numbers (wire types 0,1,2,5, also nested messages) inserted at every/half/fifth of the field boundaries of the message, recursively inside embedded messages and map entries: Unmarshal must accept and decode to the same value. Distinct by (type, input).",
 		Trusted: []string{"google.golang.org/protobuf/encoding/protowire v1.25.0 as reference scanner", "runtime.MemStats.TotalAlloc for the allocation bound", "the field-numbering replica in gen/pwire.FieldsOf"},
 		Subs: []core.Sub{
 			{Name: "prefixes", N: core.Const(1500, 60000), Run: runPrefixes},
